@@ -23,6 +23,7 @@ use hx_common::sched;
 use hx_common::*;
 use leptos::either::Either;
 use leptos::oco::Oco;
+use leptos::text_prop::TextProp;
 use leptos::prelude::*;
 use leptos::tachys::html::attribute::any_attribute::{AnyAttribute, IntoAnyAttribute};
 use leptos::tachys::html::attribute::custom::custom_attribute;
@@ -127,6 +128,15 @@ macro_rules! def_plain_attr {
                 }
                 "Arc" => mk!(Arc::<str>::from(v)),
                 "Oco" => mk!(Oco::<'static, str>::from(v.to_string())),
+                "OcoB" => mk!(Oco::<'static, str>::Borrowed(leak(v))),
+                "OcoC" => mk!(Oco::<'static, str>::Counted(Arc::<str>::from(v))),
+                // TextProp (what `#[prop(into)] TextProp` component props hold): from a literal, a String, a closure
+                "TpL" if t.opt == '=' => Some(custom_attribute(name, TextProp::from(leak(v)).into_attribute_value()).into_any_attr()),
+                "TpS" if t.opt == '=' => Some(custom_attribute(name, TextProp::from(v.to_string()).into_attribute_value()).into_any_attr()),
+                "TpF" if t.opt == '=' => {
+                    let s = v.to_string();
+                    Some(custom_attribute(name, TextProp::from(move || s.clone()).into_attribute_value()).into_any_attr())
+                }
                 "fn" => {
                     let s = v.to_string();
                     mk!(move || s.clone())
@@ -166,6 +176,8 @@ fn build_attr(a: &Attr) -> Option<AnyAttribute> {
                 "Cow" => mk!(Cow::<'static, str>::Owned(v.clone())),
                 "CowB" => mk!(Cow::<'static, str>::Borrowed(leak(v))),
                 "Oco" => mk!(Oco::<'static, str>::from(v.clone())),
+                "OcoB" => mk!(Oco::<'static, str>::Borrowed(leak(v))),
+                "OcoC" => mk!(Oco::<'static, str>::Counted(Arc::<str>::from(v.as_str()))),
                 "fn" => {
                     let s = v.clone();
                     mk!(move || s.clone())
@@ -195,6 +207,8 @@ fn build_attr(a: &Attr) -> Option<AnyAttribute> {
                 "str" => mk!(leak(v)),
                 "Arc" => mk!(Arc::<str>::from(v.as_str())),
                 "Oco" => mk!(Oco::<'static, str>::from(v.clone())),
+                "OcoB" => mk!(Oco::<'static, str>::Borrowed(leak(v))),
+                "OcoC" => mk!(Oco::<'static, str>::Counted(Arc::<str>::from(v.as_str()))),
                 "fn" => {
                     let s = v.clone();
                     mk!(move || s.clone())
@@ -220,6 +234,8 @@ fn build_attr(a: &Attr) -> Option<AnyAttribute> {
                 "str" => mk!(leak(v)),
                 "Arc" => mk!(Arc::<str>::from(v.as_str())),
                 "Oco" => mk!(Oco::<'static, str>::from(v.clone())),
+                "OcoB" => mk!(Oco::<'static, str>::Borrowed(leak(v))),
+                "OcoC" => mk!(Oco::<'static, str>::Counted(Arc::<str>::from(v.as_str()))),
                 "fn" if t.opt == '=' => {
                     let s = v.clone();
                     style_attr((name, move || s.clone())).into_any_attr()
@@ -322,6 +338,8 @@ fn text_child(ty: &str, s: &str) -> Option<AnyView> {
         "Cow" => Cow::<'static, str>::Owned(s.to_string()).into_any(),
         "CowB" => Cow::<'static, str>::Borrowed(leak(s)).into_any(),
         "Oco" => Oco::<'static, str>::from(s.to_string()).into_any(),
+        "OcoB" => Oco::<'static, str>::Borrowed(leak(s)).into_any(),
+        "OcoC" => Oco::<'static, str>::Counted(Arc::<str>::from(s)).into_any(),
         "fn" => {
             let s = s.to_string();
             (move || s.clone()).into_any()
@@ -1154,6 +1172,10 @@ const HOSTILE: &[&str] = &[
     "<!", "</", "<?", "javascript:", "\u{feff}", "\u{1}", "\u{7f}", "\u{85}", "\u{fffd}", "--", "-", "!", ";", "#",
     "&#", "&a", "& ", "\u{3000}", "\u{10ffff}", "\u{e000}", "<script>", "<a href=\"", "\" onload=\"", "' x='",
     "\u{c}", "&gt", "<p>", "</div>", "<textarea>",
+    // character references and nothing else that needs escaping (no `<`, `>`, quote or line feed)
+    "&lt;", "&gt;", "&#38;", "5 &lt; 6 &amp; so on", "&amp;lt;", "&notit;",
+    // style / url() values
+    "url(", "url(a?x=1&y=2)", "background:url(/i?w=1&amp;h=2)", "url(\"a\")&quot;", "color:red;&#59;", "url(&quot;)",
 ];
 const DIRTY: &[&str] = &["\0", "\r", "\r\n", "a\0b", "\0<"];
 const BENIGN: &[&str] = &["a", "b", "hello", "x1", "z", "ok", "var a=1;", "p{color:red}", " ", "A", "é", "日本"];
@@ -1161,11 +1183,12 @@ const HOSTILE_CHARS: &[char] =
     &['<', '>', '&', '"', '\'', '/', '=', '`', ' ', 'a', 'é', '日', '😀', '\u{a0}', ';', '#', '!', '-', '?', '\n'];
 
 /// string types per position (the first one is the plain `String`)
-const TEXT_TYS: &[&str] = &["String", "str", "Arc", "Cow", "CowB", "Oco", "fn"];
-const ATTR_STR_TYS: &[&str] = &["String", "str", "refString", "Arc", "Oco", "fn"];
-const CLASS_TYS: &[&str] = &["String", "str", "Arc", "Cow", "CowB", "Oco", "fn"];
-const STYLE_TYS: &[&str] = &["String", "str", "Arc", "Oco", "fn"];
-const KV_TYS: &[&str] = &["String", "str", "Arc", "Oco"];
+/// (every variant of the enum types: Cow Owned / Borrowed, Oco Owned / Borrowed / Counted, TextProp from literal / String / closure)
+const TEXT_TYS: &[&str] = &["String", "str", "Arc", "Cow", "CowB", "Oco", "OcoB", "OcoC", "fn"];
+const ATTR_STR_TYS: &[&str] = &["String", "str", "refString", "Arc", "Oco", "OcoB", "OcoC", "TpL", "TpS", "TpF", "fn"];
+const CLASS_TYS: &[&str] = &["String", "str", "Arc", "Cow", "CowB", "Oco", "OcoB", "OcoC", "fn"];
+const STYLE_TYS: &[&str] = &["String", "str", "Arc", "Oco", "OcoB", "OcoC", "fn"];
+const KV_TYS: &[&str] = &["String", "str", "Arc", "Oco", "OcoB", "OcoC"];
 const INNER_TYS: &[&str] = &["String", "str", "Arc"];
 const STR_ITEM_TYS: &[char] = &['S', 's', 'a', 'w', 'o'];
 
@@ -1222,7 +1245,7 @@ fn gen_str(r: &mut Rng, c: &mut Ctx) -> String {
 /// a value type for a position: mostly `String`, otherwise any of `tys`, sometimes behind `Option`
 fn gen_ty(r: &mut Rng, tys: &[&'static str], allow_opt: bool) -> Ty {
     let ty = if r.chance(2, 5) { tys[0] } else { pk(r, tys) };
-    let opt = if allow_opt && ty != "fn" && ty != "refString" && r.chance(1, 5) {
+    let opt = if allow_opt && ty != "fn" && ty != "refString" && !ty.starts_with("Tp") && r.chance(1, 5) {
         if r.chance(1, 3) {
             '-'
         } else {
@@ -1496,6 +1519,13 @@ fn gen_wkids(r: &mut Rng, c: &mut Ctx, depth: usize, anc: &mut Vec<&'static str>
         let pick = if depth == 0 { r.below(4) } else { r.below(12) };
         match pick {
             0 | 1 => out.push(gen_text(r, c)),
+            2 if r.chance(1, 3) => {
+                // a text-bearing element of its own kind: RCDATA
+                let a: Vec<&str> = anc.iter().rev().copied().collect();
+                if html::nest_ok("textarea", &a) {
+                    out.push(Node::Elem { tag: "textarea".into(), attrs: gen_attrs(r, c, false), kids: vec![gen_text(r, c)] });
+                }
+            }
             2 => out.extend(gen_kids(r, c, depth.min(1), anc, 1)),
             3 => {
                 if in_fb && r.chance(1, 2) {
@@ -1601,7 +1631,7 @@ fn gen_kids(r: &mut Rng, c: &mut Ctx, depth: usize, anc: &mut Vec<&'static str>,
             10 => {
                 let tag = pk(r, RAWS);
                 let attrs = gen_attrs(r, c, false);
-                let kids: Vec<Node> = if c.raw_text && tag == "textarea" && r.chance(2, 3) {
+                let kids: Vec<Node> = if tag == "textarea" && r.chance(2, 3) {
                     // the usual shape: one string as the initial value (sometimes starting with a line feed)
                     let mut t = gen_text(r, c);
                     if r.chance(1, 6) {
@@ -1687,9 +1717,16 @@ fn small_scope() -> Vec<String> {
                 Attr::Plain("lang".into(), s.clone(), ty('?', "Arc")),
                 Attr::Plain("alt".into(), s.clone(), ty('?', "Oco")),
                 Attr::Plain("name".into(), s.clone(), ty('-', "String")),
+                Attr::Plain("title".into(), s.clone(), ty('?', "OcoB")),
+                Attr::Plain("data-x".into(), s.clone(), ty('?', "OcoC")),
             ],
             vec![],
         )]);
+        // the style attribute is one merged string: the atom next to a url(), in either part
+        p(vec![el("div", vec![Attr::Style(s.clone(), Ty::string()), Attr::StyleKV("background".into(), "url(x.png)".into(), Ty::string())], vec![])]);
+        p(vec![el("div", vec![Attr::Style("background:url(x.png)".into(), ty('=', "str")), Attr::StyleKV("--v".into(), s.clone(), ty('=', "OcoB"))], vec![])]);
+        p(vec![el("div", vec![Attr::StyleKV("background-image".into(), format!("url({s})"), Ty::string()), Attr::StyleKV("--w".into(), s.clone(), ty('=', "OcoC"))], vec![])]);
+        p(vec![el("div", vec![Attr::Style(format!("background:url(a?b=1&c=2);--v:{s}"), Ty::string()), Attr::Class(format!("url( {s}"), ty('=', "OcoB"))], vec![])]);
         p(vec![el("b", CLASS_TYS.iter().map(|t_| Attr::Class(s.clone(), ty('=', t_))).collect(), vec![])]);
         p(vec![el(
             "b",
@@ -1784,6 +1821,22 @@ fn small_scope() -> Vec<String> {
             vec![el("div", vec![], vec![Node::Suspense { transition: true, kids: vec![Node::text("k"), sus(2, vec![el("i", vec![], vec![t()])])], fb: vec![el("i", vec![], vec![t()]), t()] }])],
             vec![el("div", vec![], vec![Node::Await { delay: 0, data: s.clone() }, Node::Await { delay: 1, data: s.clone() }])],
             vec![el("div", vec![], vec![Node::Suspense { transition: false, kids: vec![Node::Boundary { kids: vec![er(&s)], fb: vec![Node::ErrMsgs] }, sus(1, vec![Node::Show { cond: false, kids: vec![], fb: vec![t()] }])], fb: vec![Node::Boundary { kids: vec![er(&s)], fb: vec![Node::ErrMsgs, t()] }] }])],
+            // every text-bearing node kind and every attribute kind without any wrapper: the streaming renderers
+            // have their own element code (to_html_async_with_buf)
+            vec![el("textarea", vec![Attr::Plain("name".into(), s.clone(), Ty::string())], vec![t()]), el("title", vec![], vec![t()]), t()],
+            vec![el("div", vec![], vec![el("textarea", vec![], vec![tt("OcoB")]), el("textarea", vec![], vec![tt("fn")]), el("textarea", vec![], vec![c('V', 'S', vec![t()])]), el("textarea", vec![], vec![Node::text(&format!("\n{s}"))])])],
+            vec![el(
+                "p",
+                vec![
+                    Attr::Class(s.clone(), ty('=', "OcoC")),
+                    Attr::Style(s.clone(), ty('=', "OcoB")),
+                    Attr::StyleKV("background".into(), "url(x)".into(), Ty::string()),
+                    Attr::Plain("title".into(), s.clone(), ty('=', "OcoB")),
+                    Attr::Plain("lang".into(), s.clone(), ty('=', "TpL")),
+                ],
+                TEXT_TYS.iter().map(|ty| tt(ty)).collect(),
+            )],
+            vec![el("div", vec![], vec![Node::Suspense { transition: false, kids: vec![sus(1, vec![el("textarea", vec![], vec![t()])]), el("textarea", vec![], vec![t()])], fb: vec![el("textarea", vec![], vec![t()])] }, Node::Show { cond: true, kids: vec![el("textarea", vec![], vec![t()])], fb: vec![] }])],
         ];
         for (k4, v) in wviews.iter().enumerate() {
             let e = enc::encode(v);
@@ -1808,6 +1861,8 @@ fn small_scope() -> Vec<String> {
             format!("doc H{}", attrs_word(&[Attr::Plain("lang".into(), s.clone(), Ty::string()), Attr::Class(s.clone(), Ty::string()), Attr::Plain("data-x".into(), s.clone(), ty('?', "str"))])),
             format!("doc B{}", attrs_word(&[Attr::Plain("id".into(), s.clone(), ty('=', "Arc")), Attr::Style(s.clone(), Ty::string()), Attr::StyleKV("color".into(), s.clone(), Ty::string()), Attr::ClassToggle(s.clone(), true, false)])),
             format!("doc T{h} mn,{h},{h} H{} B{}", attrs_word(&[Attr::Plain("lang".into(), s.clone(), Ty::string())]), attrs_word(&[Attr::Class(s.clone(), Ty::string())])),
+            format!("doc H{}", attrs_word(&[Attr::Style(s.clone(), ty('=', "OcoB")), Attr::StyleKV("background".into(), "url(x.png)".into(), Ty::string()), Attr::Plain("lang".into(), s.clone(), ty('=', "OcoB"))])),
+            format!("doc B{}", attrs_word(&[Attr::Style("background:url(x.png)".into(), Ty::string()), Attr::StyleKV("--v".into(), s.clone(), ty('=', "OcoC")), Attr::Class(s.clone(), ty('=', "OcoB")), Attr::Plain("title".into(), s.clone(), ty('=', "TpS"))])),
         ];
         for (k3, d) in docs.iter().enumerate() {
             out.push(format!("case ssd{i}-{k3}\n{d}"));
